@@ -324,7 +324,9 @@ func (c *Conn) Peek(i int) (p []byte, err error) {
 	l := node.Len()
 	// Enough data in a single node, so that just return the slice of the node.
 	if l >= i {
-		return node.buf[node.off : node.off+i], err
+		// the capacity ends with the slice: what follows in the node is input that
+		// has not been read yet, an append by the caller must not land there
+		return node.buf[node.off : node.off+i : node.off+i], err
 	}
 
 	// not enough data in a signal node
